@@ -65,6 +65,17 @@ def interpOp (s : IS) (op : Json) : P (IS × Json) := do
     let e ← event e
     let w := s.world.modifySlot i (extQueue e)
     return ({ s with world := w }, obs w .null)
+  | [.str "queuemany", i, .arr es, _] =>
+    -- `queue(e₁, e₂, …, **parameters)`: the events (names already completed with the parameters) in the order given
+    let i ← i.getNat?
+    let mut w := s.world
+    for e in es.toList do
+      let e ← event e
+      w := w.modifySlot i (extQueue e)
+    return ({ s with world := w }, obs w .null)
+  | [.str "setclock", _, _, _] =>
+    -- (the interpreter is given another clock: its own time only changes when it executes)
+    return (s, obs s.world .null)
   | [.str "setvar", i, n, v] =>
     let i ← i.getNat?
     let n ← n.getStr?
